@@ -3,10 +3,12 @@
    (shipped_is_current_X / shipped_is_stale_X_refuted, generated_is_schema_of_X) cannot live here
    because Gen/ is rebuilt on every run: they are in Properties/C15Schemas.v.in, instantiated as
    Gen/C15Schemas.v and compiled by checks/c15.py on every run (and counted as obligations there).
-   NOT proved (stated honestly): decode_of_valid (bounded j -> valid j -> the parser accepts j) for all
-   documents; it is evaluated by computation on every generated / mutated document of every run
-   (K-schema + K-serde), which is a test. *)
-From VV.SERDE Require Import Serde Config CorrSchema SchemaOfTypes SchemaP ValidEncode.
+   Both directions are proved for ALL documents / values (no sampling): valid_encode (what the serialisers
+   write validates) and decode_of_valid (what validates - under the strict reading that is the complement of
+   the recorded class C15-integer-width-not-in-schema, and without repeated members - is accepted by the
+   parser model), each against schema_of_X; Gen/C15Schemas.v transports them to the *shipped* schema terms
+   through doc_eqb_eq (soundness of the schema comparison) on every run. *)
+From VV.SERDE Require Import Serde Config CorrSchema SchemaOfTypes SchemaStrict SchemaP ValidEncode DecodeOfValid EqbSound.
 
 (* every document the serialisers produce validates against the schema derived from its type
    (schema_of_X = the regenerated schema, checked per run by generated_is_schema_of_X) *)
@@ -25,20 +27,70 @@ Proof. exact valid_encode_config. Qed.
 Print Assumptions C15_valid_encode_config.
 Check C15_valid_encode_config : forall c, valid schema_of_config (encode_config c) = Some true.
 
-(* `bounded` cannot be dropped: schema-valid documents outside it are rejected by the parser *)
+(* ---- decode_of_valid: every document without repeated members that is strictly valid (format =
+   the Rust width of the field, "integer" excludes 1.0; Model/SchemaStrict.v) is accepted, for any fuel ---- *)
+Theorem C15_decode_of_valid_table : forall n j,
+  nodup_doc j = true ->
+  svalid_f n (sd_defs schema_of_model) (sd_root schema_of_model) j = Some true ->
+  exists t, decode_table j = Some t.
+Proof. exact decode_of_valid_table. Qed.
+Print Assumptions C15_decode_of_valid_table.
+Check C15_decode_of_valid_table : forall n j,
+  nodup_doc j = true ->
+  svalid_f n (sd_defs schema_of_model) (sd_root schema_of_model) j = Some true ->
+  exists t, decode_table j = Some t.
+
+Theorem C15_decode_of_valid_plan : forall n j,
+  nodup_doc j = true ->
+  svalid_f n (sd_defs schema_of_migration) (sd_root schema_of_migration) j = Some true ->
+  exists p, decode_plan j = Some p.
+Proof. exact decode_of_valid_plan. Qed.
+Print Assumptions C15_decode_of_valid_plan.
+Check C15_decode_of_valid_plan : forall n j,
+  nodup_doc j = true ->
+  svalid_f n (sd_defs schema_of_migration) (sd_root schema_of_migration) j = Some true ->
+  exists p, decode_plan j = Some p.
+
+(* non-vacuity, and the two ways out of the hypotheses *)
+Theorem C15_strictly_valid_example :
+  strictly_valid schema_of_migration (encode_plan ex_plan) = true
+  /\ strictly_valid schema_of_migration (file_form schema_url (encode_plan ex_plan)) = true
+  /\ strictly_valid schema_of_migration (JObj [("version", JInt 1); ("version", JInt 1); ("actions", JArr [])]) = false
+  /\ valid schema_of_migration (JObj [("version", JInt 1); ("version", JInt 1); ("actions", JArr [])]) = Some true
+  /\ decode_plan (JObj [("version", JInt 1); ("version", JInt 1); ("actions", JArr [])]) = None.
+Proof. exact strictly_valid_example. Qed.
+Print Assumptions C15_strictly_valid_example.
+Check C15_strictly_valid_example :
+  strictly_valid schema_of_migration (encode_plan ex_plan) = true
+  /\ strictly_valid schema_of_migration (file_form schema_url (encode_plan ex_plan)) = true
+  /\ strictly_valid schema_of_migration (JObj [("version", JInt 1); ("version", JInt 1); ("actions", JArr [])]) = false
+  /\ valid schema_of_migration (JObj [("version", JInt 1); ("version", JInt 1); ("actions", JArr [])]) = Some true
+  /\ decode_plan (JObj [("version", JInt 1); ("version", JInt 1); ("actions", JArr [])]) = None.
+
+(* the strict reading cannot be dropped (the recorded class): plainly valid, strictly invalid, rejected *)
 Theorem C15_decode_of_valid_refuted :
-  exists j, valid schema_of_model j = Some true /\ decode_table j = None /\ known_C15_unbounded DTable j = true.
+  exists j, valid schema_of_model j = Some true /\ decode_table j = None /\ known_C15_unbounded DTable j = true
+            /\ nodup_doc j = true /\ svalid schema_of_model j = Some false.
 Proof. exact decode_of_valid_refuted. Qed.
 Print Assumptions C15_decode_of_valid_refuted.
 Check C15_decode_of_valid_refuted :
-  exists j, valid schema_of_model j = Some true /\ decode_table j = None /\ known_C15_unbounded DTable j = true.
+  exists j, valid schema_of_model j = Some true /\ decode_table j = None /\ known_C15_unbounded DTable j = true
+            /\ nodup_doc j = true /\ svalid schema_of_model j = Some false.
 
 Theorem C15_decode_of_valid_float_refuted :
-  exists j, valid schema_of_migration j = Some true /\ decode_plan j = None /\ known_C15_unbounded DPlan j = true.
+  exists j, valid schema_of_migration j = Some true /\ decode_plan j = None /\ known_C15_unbounded DPlan j = true
+            /\ nodup_doc j = true /\ svalid schema_of_migration j = Some false.
 Proof. exact decode_of_valid_float_refuted. Qed.
 Print Assumptions C15_decode_of_valid_float_refuted.
 Check C15_decode_of_valid_float_refuted :
-  exists j, valid schema_of_migration j = Some true /\ decode_plan j = None /\ known_C15_unbounded DPlan j = true.
+  exists j, valid schema_of_migration j = Some true /\ decode_plan j = None /\ known_C15_unbounded DPlan j = true
+            /\ nodup_doc j = true /\ svalid schema_of_migration j = Some false.
+
+(* the per-run schema comparisons (doc_eqb ... = true, closed by vm_compute) decide equality of the schema terms *)
+Theorem C15_doc_eqb_sound : forall a b, doc_eqb a b = true -> a = b.
+Proof. exact doc_eqb_eq. Qed.
+Print Assumptions C15_doc_eqb_sound.
+Check C15_doc_eqb_sound : forall a b, doc_eqb a b = true -> a = b.
 
 (* the fuelled validator's verdict, once given, is independent of the fuel (so VALID_FUEL only decides
    between an answer and the explicit out-of-fuel outcome, never between true and false) *)
